@@ -320,6 +320,19 @@ func enforce(kind, mode string, n int, sched []ev, grace time.Duration) asyncRes
 	return asyncResult{}
 }
 
+// mapResult: a pure function with results of several kinds, nil among them
+func mapResult(i int, v any) any {
+	switch i % 4 {
+	case 1:
+		return nil
+	case 2:
+		return fmt.Sprintf("s%d", i)
+	case 3:
+		return float64(i) / 2
+	}
+	return v.(int) + i
+}
+
 // freeRun executes one async call without gates and records the observable events.
 func freeRun(kind, mode string, n int, rng *rand.Rand, w *bufio.Writer, wmu *sync.Mutex) error {
 	var l at.List
@@ -375,11 +388,11 @@ func freeRun(kind, mode string, n int, rng *rand.Rand, w *bufio.Writer, wmu *syn
 	case kind == "list" && mode == "ForEach":
 		ret = l.ForEachAsync(func(i int, v any) { body(i, v) })
 	case kind == "list":
-		ret = l.MapAsync(func(i int, v any) any { body(i, v); return v.(int) + i })
+		ret = l.MapAsync(func(i int, v any) any { body(i, v); return mapResult(i, v) })
 	case mode == "ForEach":
 		ret = o.ForEachAsync(func(k string, v any) { body(idx[k], v) })
 	default:
-		ret = o.MapAsync(func(k string, v any) any { body(idx[k], v); return v.(int) + idx[k] })
+		ret = o.MapAsync(func(k string, v any) any { body(idx[k], v); return mapResult(idx[k], v) })
 	}
 	mu.Lock()
 	events = append(events, ev{"R", 0})
@@ -402,13 +415,13 @@ func freeRun(kind, mode string, n int, rng *rand.Rand, w *bufio.Writer, wmu *syn
 	}
 	switch {
 	case kind == "list" && mode == "Map":
-		want := l.Map(func(i int, v any) any { return v.(int) + i })
-		if got, ok := ret.(at.List); !ok || !got.Equals(want) {
+		want := l.Map(func(i int, v any) any { return mapResult(i, v) })
+		if got, ok := ret.(at.List); !ok || !got.Equals(want) || !want.Equals(got) || got.String() != want.String() {
 			return fmt.Errorf("list.MapAsync n=%d GOMAXPROCS=%d differs from Map: %v vs %s", n, runtime.GOMAXPROCS(0), ret, want.String())
 		}
 	case kind == "object" && mode == "Map":
-		want := o.Map(func(k string, v any) any { return v.(int) + idx[k] })
-		if got, ok := ret.(at.Object); !ok || !got.Equals(want) {
+		want := o.Map(func(k string, v any) any { return mapResult(idx[k], v) })
+		if got, ok := ret.(at.Object); !ok || !got.Equals(want) || !want.Equals(got) {
 			return fmt.Errorf("object.MapAsync n=%d differs from Map", n)
 		}
 	case kind == "list":
@@ -620,7 +633,7 @@ func cmdAsync(args []string) int {
 			w = bufio.NewWriter(os.Stderr)
 		}
 		var wmu sync.Mutex
-		sizes := []int{0, 1, 2, 3, 5, 8, 16, 63, 64, 65, 100, 129, 257}
+		sizes := []int{0, 1, 2, 3, 5, 8, 16, 63, 64, 65, 100, 129, 257, 600, 1030}
 		rng := rand.New(rand.NewSource(*seed))
 		for r := 0; r < *freeRuns && st.nviol() == 0; r++ {
 			n := sizes[r%len(sizes)]
@@ -628,8 +641,17 @@ func cmdAsync(args []string) int {
 			runtime.GOMAXPROCS(procs)
 			kind := []string{"list", "object"}[r%2]
 			mode := []string{"ForEach", "Map"}[(r/2)%2]
-			if err := freeRun(kind, mode, n, rng, w, &wmu); err != nil {
-				fail("free", fmt.Sprintf("%s %s n=%d GOMAXPROCS=%d", kind, mode, n, procs), err)
+			errCh := make(chan error, 1)
+			sub := rand.New(rand.NewSource(rng.Int63()))
+			go func() { errCh <- freeRun(kind, mode, n, sub, w, &wmu) }()
+			select {
+			case err := <-errCh:
+				if err != nil {
+					fail("free", fmt.Sprintf("%s %s n=%d GOMAXPROCS=%d", kind, mode, n, procs), err)
+				}
+			case <-time.After(60 * time.Second):
+				fail("free", fmt.Sprintf("%s %s n=%d GOMAXPROCS=%d", kind, mode, n, procs),
+					fmt.Errorf("%s.%sAsync over %d elements did not return within 60 s with callbacks that only yield (GOMAXPROCS=%d)", kind, mode, n, procs))
 			}
 			free++
 			atomic.AddInt64(&st.evals, 1)
